@@ -21,7 +21,7 @@ META = {
                'Fraction / str, invalid {0, -1, 1.5, 0.1, -10}',
                'triangulation: one rate symbolic, the other concrete (linearity rule), all shared-currency layouts '
                'over 3 currencies; inversion: symbolic rate with unit multiple 1'],
-    'outside_bounds': ['both rates symbolic in a product / quotient', 'division of a concrete rate by a symbolic one', 'term amounts outside the magnitude range',
+    'outside_bounds': ['double inversion with a symbolic rate (product of two rounded symbolic values: undecided after minutes); it is checked for 15 concrete rates x 2 unit multiples instead', 'both rates symbolic in a product / quotient', 'division of a concrete rate by a symbolic one', 'term amounts outside the magnitude range',
                        'non-finite floats (concrete extra cases only)'],
     'stubs': ['Decimal.magnitude (finite table)', 'math.log10 on a rational: floor may be k or k+1 within a relative '
               '2^-44 band below 10^(k+1)', 'Decimal(x, 6) rounding contract', 'Decimal(fraction) representable or ValueError'],
@@ -46,6 +46,7 @@ def jobs(tier, seed):
     for um in UMS_INVALID + ['x', '']:
         out.append({'fn': 'ctor_invalid_um', 'cfg': {'um': um}})
     out.append({'fn': 'ctor_concrete', 'cfg': {}})
+    out.append({'fn': 'inverted_twice', 'cfg': {}})
     for fl in ('dec', 'frac'):
         out.append({'fn': 'inverted', 'cfg': {'flav': fl}, 'opts': {'mag_range': MAG}})
     concretes = ['1.25', '0.0325', '163.27', '0.000123'] if tier == 'quick' else \
@@ -217,6 +218,36 @@ def inverted(E, cfg):
             key='inverted:currencies')
     _normal_form(E, inv, r.inverse_rate, 'inverted', [cfg['flav']])
     E.observe('inv', inv._term_amount)
+
+
+TWICE = ['123456.654321', '1.234567', '0.333333', '3', '0.75', '7.5', '999.999999', '0.001001', '1', '64', '0.142857',
+         '98765.4321', '2.000001', '0.5', '1000000']
+
+
+def inverted_twice(E, cfg):
+    """inverting the inverse: again a normalised rate, accurate with respect to the rate it was computed from (the
+    rounded inverse, not the original), whatever was computed from the same objects before.  Concrete rates from a
+    list: with a symbolic rate the obligation multiplies two rounded symbolic values (undecided after minutes)."""
+    from decimalfp import Decimal
+    from quantity.money import ExchangeRate
+    eur, usd, jpy = _curs()
+    ts = E.choice('t', TWICE)
+    um = E.choice('um', [1, 100])
+    r = ExchangeRate(eur, um, usd, Decimal(ts))
+    inv = r.inverted()
+    r.inverted()                                  # (a second request in between)
+    h = Fraction(5, 10 ** 7)
+    for k, x in enumerate((inv.inverted(), inv.inverted(), inv.inverted().inverted().inverted())):
+        E.check(x.unit_currency is eur and x.term_currency is usd, 'twice-inverted-currencies', key='inverted-twice:currencies')
+        amt, mult = Fraction(x._term_amount), Fraction(x._unit_multiple)
+        src = inv if k < 2 else inv.inverted().inverted()
+        exact = mult / Fraction(src.rate)
+        E.check(abs(amt - exact) <= h, 'twice-inverted-accuracy', key='inverted-twice:accuracy', info=[ts, um, k, str(amt), str(exact)])
+        E.check((amt * 10 ** 6).denominator == 1 and amt >= Fraction(1, 10), 'twice-inverted-normal-form',
+                key='inverted-twice:normal-form', info=[ts, um, k])
+    a, b = inv.inverted(), inv.inverted()
+    E.check(a._term_amount == b._term_amount and a._unit_multiple == b._unit_multiple and a == b, 'twice-inverted-repeatable',
+            key='inverted-twice:repeat', info=[ts, um])
 
 
 def triangulate(E, cfg):
